@@ -43,6 +43,8 @@ pub enum Part {
     CursorTo(usize, usize),
     EraseChars(usize),
     Title(usize),
+    /// `execute(TerminalCommand::Raw(bytes))` with this many bytes
+    Raw(usize),
 }
 
 #[derive(Clone, Debug, PartialEq, Eq, Hash, Serialize, Deserialize)]
@@ -265,6 +267,7 @@ fn part_cmd(p: &Part) -> Option<TerminalCommand> {
         Part::CursorTo(r, c) => TerminalCommand::CursorTo(Position::new(*r, *c)),
         Part::EraseChars(n) => TerminalCommand::EraseChars(*n),
         Part::Title(n) => TerminalCommand::Title("t".repeat(*n)),
+        Part::Raw(n) => TerminalCommand::Raw((0..*n).map(|i| b'A' + (i % 26) as u8).collect()),
     })
 }
 
@@ -582,6 +585,7 @@ impl Prop for C16 {
                             parts.push(match rng.below(8) {
                                 0 => Part::CursorTo(rng.below(50), rng.below(200)),
                                 1 => Part::EraseChars(rng.range(1, 99)),
+                                2 if rng.bool() => Part::Raw(*rng.pick(&[1usize, 100, 4095, 4096, 4097, 20_000, 70_000])),
                                 2 => Part::Title(rng.range(0, 20)),
                                 3 | 4 => Part::Payload(rng.range(40_000, big)),
                                 _ => Part::Payload(rng.range(0, 5000)),
